@@ -1,19 +1,23 @@
 """Run the source->Lean translators (T0/T1); files are rewritten only on change."""
-import os
+import os, traceback
 from . import common as C
 
 
 def generate_all():
+    """Returns the per-translator summaries.  A translator that cannot translate the current source (a construct
+    outside the subset it understands) leaves its previous output in place and is reported under info["errors"]:
+    the check treats that as a broken tie and goes on to the failing-input search."""
     info = {}
+    errors = []
     with C.Lock("gen"):
-        from tools import constgen
-        info["consts"] = constgen.generate()
-        from tools import envgen
-        info["envtable"] = envgen.generate()
-        from tools import asmgen
-        info["fcontext"] = asmgen.generate()
-        from tools import poolgen
-        info["poolends"] = poolgen.generate()
-        from tools import laddergen
-        info["ladders"] = laddergen.generate()
+        for key, modname in (("consts", "constgen"), ("envtable", "envgen"), ("fcontext", "asmgen"), ("poolends", "poolgen"),
+                             ("ladders", "laddergen")):
+            try:
+                mod = __import__("tools." + modname, fromlist=["generate"])
+                info[key] = mod.generate()
+            except Exception as ex:      # the source left the translator's subset
+                info[key] = {"error": repr(ex)}
+                errors.append({"translator": "tools/%s.py" % modname, "error": repr(ex), "trace": traceback.format_exc()[-1200:]})
+    if errors:
+        info["errors"] = errors
     return info
